@@ -146,6 +146,7 @@ bool log_is_enabled(enum log_type type) { return false; }
 void log_console_conf(bool enabled) { }
 long xv_heap_live;       /* ghost: ut_* heap blocks allocated and not yet freed */
 #define XV_LIVE_OK(c) ((c) >= 0 && (c) < (1L << 40))
+#define XV_LIVE_OK2(c) ((c) >= 0 && (c) < (1L << 41))   /* range for callees: room for the calls made before them */
 void *ut_malloc(size_t size) { void *p = malloc(size); __CPROVER_assume(p != NULL); xv_heap_live++; return p; }
 void ut_free(void *ptr) { if (ptr != NULL) xv_heap_live--; free(ptr); }
 void ut_mem_exhausted(void) { abort(); }
@@ -164,13 +165,13 @@ struct { long md_calls; uint8_t md_last[32], md_prev[32]; long ld_since_md, ld_b
 #define xv_ld_between xv_MD.ld_between
 #define xv_ldb_res xv_MD.ldb_res
 static inline void xv_ld_record(const char *p) { if (xv_ld_since_md >= 0 && xv_ld_since_md < 4) xv_ld_res[xv_ld_since_md] = p; xv_ld_since_md++; }
-/* heap strings of this unit are short (bound XV_STR_MAX of the unit, an obligation in the stubs): a block of EXACTLY len+1
- * bytes is allocated by case distinction, so that every object has a constant size (objects of symbolic size made the
- * formula of ctx_store_get_ctx 136M clauses) */
+/* heap strings of this unit are short (bound XV_STR_MAX of the unit, an obligation in the stubs); a block of EXACTLY len+1
+ * bytes is allocated (one malloc site per stub: every allocation site is an object for CBMC, and DFCC's frame checks cost
+ * in proportion to the number of objects) */
 #define XV_STR_MAX 4
 static char *xv_str_alloc(size_t n)
 {
-    char *p = n == 0 ? malloc(1) : n == 1 ? malloc(2) : n == 2 ? malloc(3) : malloc(4);
+    char *p = malloc(n + 1);
     __CPROVER_assume(p != NULL);
     return p;
 }
@@ -198,12 +199,13 @@ char *ut_strdup(const char *str)
  * becomes arbitrary and a NUL is stored at another arbitrary position (so every byte may change; proved for each position).
  * (__CPROVER_havoc_slice with a non-literal size made cbmc crash while building counterexample traces, and with a symbolic
  * size it made the formula explode.) */
+char nondet_char(void);
 static void xv_text_any(char *s, size_t size)
 {
     __CPROVER_assert(size >= 1 && __CPROVER_w_ok(s, size), "log text: destination buffer writable over its whole capacity");
     size_t k = nondet_size_t(), z = nondet_size_t();
     __CPROVER_assume(k < size && z < size);
-    s[k] = (char)nondet_uchar();
+    s[k] = nondet_char();
     s[z] = '\0';
 }
 /* TRUSTED(libc) snprintf, reached through prelude.h's macro (own model instead of env/libc_fmt.h, see above) */
@@ -260,7 +262,7 @@ ssize_t ut_load_text_file(const char *filename, char **data)
 
 #define XV_DG_MAX 96
 #define XV_DG_CHUNK 8
-struct { uint8_t dg_log[XV_DG_MAX]; size_t dg_len; long dg_updates, stat_calls, lstat_calls; } xv_DG;
+struct { uint8_t dg_log[XV_DG_MAX]; size_t dg_len; unsigned long dg_updates, stat_calls, lstat_calls; } xv_DG;   /* counters wrap: no range needed */
 #define xv_dg_log xv_DG.dg_log            /* digest input so far (since the last EVP_DigestInit_ex) */
 #define xv_dg_len xv_DG.dg_len
 #define xv_dg_updates xv_DG.dg_updates
@@ -362,7 +364,9 @@ struct { long calls; const char *cert, *key, *tc, *crl; long at_md; } xv_LSC;
 #define xv_lsc_at_md xv_LSC.at_md
 
 /* ---- ghost: what this thread owns, snapshots of the list at acquire / at release */
-#define XV_CS_MAX 2
+#ifndef XV_CS_MAX
+#define XV_CS_MAX 2     /* entries listed at acquire: 0..XV_CS_MAX (job parameter, at most 2) */
+#endif
 SSL_CTX *xv_my_ctx; int xv_my_refs;   /* this thread holds xv_my_refs references on xv_my_ctx before the call (NULL: none)      */
 int xv_my_refs_after;                 /* ... and at least this many after the critical section (set by the harness)          */
 size_t xv_hj;                         /* arbitrary hash byte index 0..31 -- NEVER assigned                                   */
@@ -393,8 +397,8 @@ static inline void xv_lk_ghost_havoc(void)
     xv_lsc_calls = nondet_long(); xv_lsc_cert = xv_lsc_key = xv_lsc_tc = xv_lsc_crl = NULL; xv_lsc_at_md = nondet_long();
     xv_x509_live = nondet_long(); xv_crl_live = nondet_long(); xv_pkey_live = nondet_long(); xv_bio_live = nondet_long();
     xv_snprintf_ret = nondet_int(); xv_snprintf_cap = nondet_size_t(); xv_snprintf_calls = nondet_int();
-    xv_heap_live = nondet_long(); xv_ld_calls = nondet_long(); xv_stat_calls = nondet_long(); xv_lstat_calls = nondet_long();
-    xv_dg_len = nondet_size_t(); xv_dg_updates = nondet_long(); xv_mdctx_live = nondet_long();
+    xv_heap_live = nondet_long(); xv_ld_calls = nondet_long(); xv_stat_calls = nondet_size_t(); xv_lstat_calls = nondet_size_t();
+    xv_dg_len = nondet_size_t(); xv_dg_updates = nondet_size_t(); xv_mdctx_live = nondet_long();
     xv_md_calls = nondet_long(); xv_md_settle = nondet_long();
     __CPROVER_havoc_slice(xv_dg_log, sizeof(xv_dg_log)); __CPROVER_havoc_slice(xv_md_last, 32); __CPROVER_havoc_slice(xv_md_prev, 32);
     xv_ctx_live = nondet_long(); xv_ctxfree_calls = nondet_long(); xv_ctxfree_last = nondet_ctxp(); xv_ctx_dead = NULL;
